@@ -31,7 +31,7 @@ var (
 	// Crypt is the default crypto client (same one the ledger creates for "default" crypto type).
 	Crypt cryptoBase.CryptoClient
 	// Ring is the fixed key ring (index 0 is the miner).
-	Ring []*Key
+	Ring       []*Key
 	ringByAddr = map[string]*Key{}
 )
 
